@@ -10,15 +10,14 @@ func init() {
 }
 
 // A1: decStep(encStep(s)) == s for every step the builder can produce
-// (non-negative multiple of 4).  Expected to fail for s >= 2^18 (finding F3).
+// (non-negative multiple of 4, at most maxStep half-bytes).
 func H_k_encstep() {
 	s := vI32("s")
 	vAssume(s >= 0)
 	vAssume(s&3 == 0)
-	lim := vParam("limit") // 0: full int32 range; 1: steps that fit 16 bits of half-bytes
-	if lim == 1 {
-		vAssume(s < 1<<18)
-	}
+	// the builder refuses longer steps (maxStep, checked in newSlim): the lemma ranges over
+	// every step it accepts
+	vAssume(s>>2 <= maxStep)
 	bs := encStep(s)
 	vAssert(len(bs) == 2, "width")
 	vAssert(decStep(bs) == s, "roundtrip")
